@@ -119,6 +119,18 @@ theorem code_stripComments (fll : String) (delim : Char) :
   simp only [h2, List.nil_append, stripComments]
   rfl
 
+/-! ### `to_float` -/
+
+/-- `to_float(x)` of a string is the reader: a number, or `ValueError` -/
+theorem code_toFloat (rd : String → Option Num) (x : String) :
+    match rd x with
+    | none => Gen.Code.to_float.run rd x {} = .error .value
+    | some v => ∃ σ, Gen.Code.to_float.run rd x {} = .ok σ ∧ σ.ret = some v := by
+  unfold Gen.Code.to_float.run toFloat
+  cases rd x with
+  | none => rfl
+  | some v => exact ⟨_, rfl, rfl⟩
+
 /-! ### `Op.scale`, `Op.bound` -/
 
 theorem code_scale (x xmin xmax ymin ymax : X Rat) :
